@@ -55,7 +55,7 @@ ASSUMPTIONS = [
 ]
 
 OPTS = F.ALL_OPTS
-KINDS = ["owner", "parent", "child", "grandchild", "tag", "note"]
+KINDS = ["owner", "parent", "child", "grandchild", "tag", "note", "badge"]
 RELS = {
     # name: (source kind, target kind, uselist, reverse name, foreign key: (table holding it, column) or None for m2m)
     "children": ("parent", "child", True, "parent"),
@@ -66,7 +66,9 @@ RELS = {
     "owner": ("parent", "owner", False, "parents"),
     "parents": ("owner", "parent", True, "owner"),
     "notes": ("parent", "note", True, None),  # unidirectional one-to-many: the child has no relationship back
+    "badges": ("owner", "badge", True, None),  # unidirectional one-to-many below the target of the many-to-one Parent.owner
 }
+UNI = {"notes": ("note", "parent", "parent_id"), "badges": ("badge", "owner", "owner_id")}  # rel -> (child kind, holder kind, fk column)
 REL_NAMES = list(RELS)
 BY_SRC = {k: [r for r, d in RELS.items() if d[0] == k] for k in KINDS}
 IN_SESSION = ("P", "S", "D")
@@ -259,7 +261,7 @@ class Model:
                         else:
                             by = self.removed_by.get((k, r))
                             # one-to-many without reverse side: also the *deleted* ex-parent's flush examines what was removed from it
-                            okst = ("S", "P", "D") if r == "notes" else ("S", "P")
+                            okst = ("S", "P", "D") if r in UNI else ("S", "P")
                             seen_by_flush = seen_by_flush or (by is not None and self.state.get(by) in okst)
                 if seen_by_flush:
                     work.append(k)
@@ -282,7 +284,7 @@ class Model:
         for k in doomed:
             for r in BY_SRC[k[0]]:
                 srck, dstk, uselist, rev = RELS[r]
-                if uselist and (rev is not None or r == "notes") and not self.has(r, "delete"):
+                if uselist and (rev is not None or r in UNI) and not self.has(r, "delete"):
                     for m in self.members(k, r):
                         # members attached since the last flush are not de-associated by the delete (unit of work looks at
                         # unchanged / removed members only): their foreign key is not judged
@@ -307,7 +309,7 @@ class _Run:
         self.ctx = ctx
         self.case = case
         cfg = case["cfg"]
-        self.cascades = {r: [OPTS[i] for i in range(6) if cfg.get(r, 3) >> i & 1] for r in ("children", "grandchildren", "tags", "owner", "notes")}
+        self.cascades = {r: [OPTS[i] for i in range(6) if cfg.get(r, 3) >> i & 1] for r in ("children", "grandchildren", "tags", "owner", "notes", "badges")}
         with warnings.catch_warnings():
             warnings.simplefilter("ignore")
             self.fam = F.family(**self.cascades)
@@ -362,13 +364,17 @@ class _Run:
         orphan_n = "delete-orphan" in self.cascades["notes"]
         notes = [dict(id=i + 1, parent_id=((x or 0) % n_p + 1 if (x is not None or orphan_n) else None)) for i, x in enumerate(init.get("notes", []))]
         F.raw_insert(self.rc, "note", notes)
+        orphan_b = "delete-orphan" in self.cascades["badges"]
+        badges = [dict(id=i + 1, owner_id=((x or 0) % len(owners) + 1 if (x is not None or orphan_b) else None)) for i, x in enumerate(init.get("badges", []))] if owners else (
+            [] if orphan_b else [dict(id=i + 1, owner_id=None) for i, x in enumerate(init.get("badges", []))])
+        F.raw_insert(self.rc, "badge", badges)
         F.raw_insert(self.rc, "owner", owners)
         F.raw_insert(self.rc, "parent", parents)
         F.raw_insert(self.rc, "child", children)
         F.raw_insert(self.rc, "grandchild", grands)
         F.raw_insert(self.rc, "tag", tags)
         F.raw_insert(self.rc, "parent_tag", [dict(parent_id=a, tag_id=b) for a, b in links])
-        self.next_id = {"owner": len(owners) + 1, "parent": n_p + 1, "child": n_c + 1, "grandchild": len(grands) + 1, "tag": n_t + 1, "note": len(notes) + 1}
+        self.next_id = {"owner": len(owners) + 1, "parent": n_p + 1, "child": n_c + 1, "grandchild": len(grands) + 1, "tag": n_t + 1, "note": len(notes) + 1, "badge": len(badges) + 1}
         self.sess = Session(self.eng, autoflush=False, expire_on_commit=True)
         self.objs = {}  # key -> live object the harness works with
         self.reload()
@@ -437,9 +443,9 @@ class _Run:
 
     def single_parent_conflict(self, r, src, dst):
         """would a single_parent validator raise?  (model: dst currently has another parent through r)"""
-        if (r in ("tags", "owner") and "delete-orphan" in self.cascades[r]) or r == "notes":  # a note row has one foreign key: one holder at a time
+        if (r in ("tags", "owner") and "delete-orphan" in self.cascades[r]) or r in UNI:  # the child row has one foreign key: one holder at a time
             for k in self.m.state:
-                if k[0] == "parent" and k != src and k in self.objs and dst in self.m.members(k, r):
+                if k[0] == RELS[r][0] and k != src and k in self.objs and dst in self.m.members(k, r):
                     return True
         return False
 
@@ -507,7 +513,7 @@ class _Run:
     def op_bounce(self, li, pi, ii, side, same):
         """detach an object and attach it again (to the same or another parent) before the flush"""
         m = self.m
-        L = ["children", "grandchildren", "tags", "parents", "children", "notes"][li % 6]
+        L = ["children", "grandchildren", "tags", "parents", "children", "notes", "badges"][li % 7]
         srck, dstk, _u, rev = RELS[L]
         par = self.pick(pi, lambda k: k[0] == srck and m.state[k] != "D" and any(m.state[x] != "D" for x in m.members(k, L)))
         if par is None:
@@ -572,7 +578,7 @@ class _Run:
                             f"{moved} was pending and attached to {oldp} through {via} (delete-orphan); moving it to another parent in one step "
                             f"({src}.{r} {'+=' if uselist else '='} {dst}) removed it from the session although it is associated with its new parent; "
                             f"it will not be inserted (cascades {self.cascades})", observed="not in session", expected="pending")
-        self.classes.add("attach-" + ("owning-side" if r in ("children", "grandchildren", "tags", "owner", "notes") else "backref-side"))
+        self.classes.add("attach-" + ("owning-side" if r in ("children", "grandchildren", "tags", "owner", "notes", "badges") else "backref-side"))
         return f"link {src}.{r} += {dst}"
 
     def do_unlink(self, r, src, item):
@@ -603,6 +609,42 @@ class _Run:
         self.do_unlink(r, src, item)
         self.classes.add("detach")
         return f"unlink {src}.{r} -= {item}"
+
+    def op_touch(self, idx):
+        """plain column change on a persistent object: it becomes dirty, nothing else"""
+        m = self.m
+        k = self.pick(idx, lambda k: m.state[k] == "S" and k[0] in ("owner", "parent", "child", "tag"))
+        if k is None:
+            return None
+        self.touch_count = getattr(self, "touch_count", 0) + 1
+        self.objs[k].name = f"t{self.touch_count}"
+        m.dirty = True
+        self.classes.add("touch-column")
+        return f"touch {k}"
+
+    def op_orphan_owner(self, pi, how, pinned):
+        """the target of the many-to-one Parent.owner gets a plain column change and, in the same flush, loses its parent
+        (set to None / replaced by a fresh one)"""
+        m = self.m
+        par = self.pick(pi, lambda k: k[0] == "parent" and m.state[k] == "S" and m.rel[(k, "owner")] is not None and m.state[m.rel[(k, "owner")]] == "S")
+        if par is None:
+            return None
+        old = m.rel[(par, "owner")]
+        self.touch_count = getattr(self, "touch_count", 0) + 1
+        self.objs[old].name = f"t{self.touch_count}"
+        m.dirty = True
+        self.classes.add("touch-column")
+        self.observe(f"touch {old} (before it loses its parent)")
+        if m.has("owner", "delete-orphan") and m.members(old, "badges") and m.has("badges", "delete"):
+            self.classes.add("dirty-orphaned-m2o-target-with-delete-cascade-children")
+        if how % 2 == 0:
+            self.do_unlink("owner", par, old)
+            what = f"unlink {par}.owner -= {old}"
+        else:
+            self.op_new(0)
+            what = self._link_keys("owner", par, self.order[-1], pinned) or f"replace {par}.owner"
+        self.classes.add("dirty-many-to-one-target-orphaned-in-same-flush")
+        return what
 
     def op_rmdel(self, pi, ii):
         """remove a member from a parent's unidirectional collection (not re-associated) and delete that parent, in one flush"""
@@ -762,7 +804,7 @@ class _Run:
         snap = F.raw_snapshot(self.rc)
         rows = {"owner": {r[0]: {} for r in snap["owner"]}, "parent": {r[0]: {"owner": r[4]} for r in snap["parent"]},
                 "child": {r[0]: {"parent": r[1]} for r in snap["child"]}, "grandchild": {r[0]: {"child": r[1]} for r in snap["grandchild"]},
-                "tag": {r[0]: {} for r in snap["tag"]}, "note": {r[0]: {"parent": r[1]} for r in snap["note"]}}
+                "tag": {r[0]: {} for r in snap["tag"]}, "note": {r[0]: {"parent": r[1]} for r in snap["note"]}, "badge": {r[0]: {"parent": r[1]} for r in snap["badge"]}}
         links = {tuple(r) for r in snap["parent_tag"]}
         # 1. exactly the expected rows
         for kind in KINDS:
@@ -795,26 +837,27 @@ class _Run:
                     raise Violation(f"C39/db/{kind}.{r}_id", f"{where}: {k[0]}#{k[1]}.{r}_id is {got!r}, expected {want!r} (in-memory {r} = {tgt}); cascades {self.cascades}",
                                     observed=got, expected=want)
         for k, s in m.state.items():
-            if k[0] != "note" or s != "S" or k not in insess_before:
+            urel = {"note": "notes", "badge": "badges"}.get(k[0])
+            if urel is None or s != "S" or k not in insess_before:
                 continue
-            holders = [p for p in before if p[0] == "parent" and k in rel_before[(p, "notes")]]
+            holders = [p for p in before if p[0] == UNI[urel][1] and k in rel_before[(p, urel)]]
             if any(p not in insess_before for p in holders):
                 continue  # held by an object outside the session: not judged
             if holders:
                 p = holders[0]
                 if p in doomed:
-                    if (k, "notes") not in nulled:
+                    if (k, urel) not in nulled:
                         continue
                     want = None
                 else:
                     want = p[1]
-            elif any(k in (m_old or []) and x in insess_before for (x, r_), m_old in self.committed_before.items() if r_ == "notes"):
+            elif any(k in (m_old or []) and x in insess_before for (x, r_), m_old in self.committed_before.items() if r_ == urel):
                 want = None  # removed from its parent's collection in this flush and not deleted (no delete-orphan)
             else:
                 continue
-            got = rows["note"][k[1]]["parent"]
+            got = rows[k[0]][k[1]]["parent"]
             if got != want:
-                raise Violation("C39/db/note.parent_id", f"{where}: note#{k[1]}.parent_id is {got!r}, expected {want!r} (held by {holders}); cascades {self.cascades}", observed=got, expected=want)
+                raise Violation(f"C39/db/{k[0]}.{UNI[urel][2]}", f"{where}: {k[0]}#{k[1]}.{UNI[urel][2]} is {got!r}, expected {want!r} (held by {holders}); cascades {self.cascades}", observed=got, expected=want)
         for k, s in m.state.items():
             if k[0] == "parent" and s == "S" and k in insess_before:
                 tl = [t for t in rel_before[(k, "tags")]]
@@ -827,7 +870,7 @@ class _Run:
                     raise Violation("C39/db/parent_tag", f"{where}: association rows of {k} are {sorted(got)}, expected {sorted(want)}", observed=sorted(got), expected=sorted(want))
         # 3. raw orphan invariant for delete + delete-orphan relationships (rows that existed before this flush: a pending orphan that
         #    the application add()s again explicitly is inserted by design, see "legacy_is_orphan" notes in the 0.8 migration guide)
-        for r, child_t, fk, parent_t in (("children", "child", "parent_id", "parent"), ("grandchildren", "grandchild", "child_id", "child"), ("notes", "note", "parent_id", "parent")):
+        for r, child_t, fk, parent_t in (("children", "child", "parent_id", "parent"), ("grandchildren", "grandchild", "child_id", "child"), ("notes", "note", "parent_id", "parent"), ("badges", "badge", "owner_id", "owner")):
             if {"delete", "delete-orphan"} <= set(self.cascades[r]):
                 bad = self.rc.execute(f"SELECT c.id FROM {child_t} c LEFT JOIN {parent_t} p ON c.{fk} = p.id WHERE p.id IS NULL").fetchall()
                 rev = RELS[r][3]
@@ -844,6 +887,7 @@ class _Run:
                   "SELECT count(*) FROM grandchild g WHERE g.child_id IS NOT NULL AND g.child_id NOT IN (SELECT id FROM child)",
                   "SELECT count(*) FROM parent p WHERE p.owner_id IS NOT NULL AND p.owner_id NOT IN (SELECT id FROM owner)",
                   "SELECT count(*) FROM note n WHERE n.parent_id IS NOT NULL AND n.parent_id NOT IN (SELECT id FROM parent)",
+                  "SELECT count(*) FROM badge b WHERE b.owner_id IS NOT NULL AND b.owner_id NOT IN (SELECT id FROM owner)",
                   "SELECT count(*) FROM parent_tag l WHERE l.parent_id NOT IN (SELECT id FROM parent) OR l.tag_id NOT IN (SELECT id FROM tag)"):
             dangling += self.rc.execute(q).fetchone()[0]
         if dangling:
@@ -885,6 +929,10 @@ def check(case, ctx):
                         what = run.op_bounce(op[1], op[2], op[3], op[4], op[5])
                     elif k == "rmdel":
                         what = run.op_rmdel(op[1], op[2])
+                    elif k == "touch":
+                        what = run.op_touch(op[1])
+                    elif k == "orphan_owner":
+                        what = run.op_orphan_owner(op[1], op[2], pinned)
                     elif k == "delete":
                         what = run.op_delete(op[1])
                     elif k == "expunge":
@@ -923,11 +971,11 @@ _subset = st.one_of(
 def _cases(draw):
     if draw(st.booleans()):
         s = draw(_subset)
-        cfg = {"children": s, "grandchildren": s, "tags": s, "owner": s, "notes": s}
+        cfg = {"children": s, "grandchildren": s, "tags": s, "owner": s, "notes": s, "badges": s}
     else:
-        cfg = {r: draw(_subset) for r in ("children", "grandchildren", "tags", "owner", "notes")}
+        cfg = {r: draw(_subset) for r in ("children", "grandchildren", "tags", "owner", "notes", "badges")}
     init = {
-        "n_o": draw(st.integers(0, 1)),
+        "n_o": draw(st.sampled_from([1, 0, 1])),
         "n_p": draw(st.integers(1, 2)),
         "children": draw(st.lists(st.one_of(st.none(), st.integers(0, 1)), min_size=1, max_size=3)),
         "grands": draw(st.lists(st.one_of(st.none(), st.integers(0, 2)), max_size=2)),
@@ -936,31 +984,41 @@ def _cases(draw):
     }
     init["parents"] = [draw(st.one_of(st.none(), st.integers(0, 1))) for _ in range(init["n_p"])]
     init["notes"] = draw(st.lists(st.one_of(st.none(), st.integers(0, 1)), max_size=2))
+    init["badges"] = draw(st.lists(st.one_of(st.none(), st.integers(0, 1)), max_size=2))
     epochs = []
     for _ in range(draw(st.integers(1, 3))):
         ops = []
         for _ in range(draw(st.integers(2, 9))):
-            k = draw(st.sampled_from(["new", "new", "add", "add", "link", "link", "move", "move", "move", "move", "bounce", "bounce", "bounce", "unlink", "unlink", "delete", "expunge", "expire", "refresh", "newlink", "newlink", "rmdel", "rmdel"]))
+            k = draw(st.sampled_from(["new", "new", "add", "add", "link", "link", "move", "move", "move", "move", "bounce", "bounce", "bounce", "unlink", "unlink", "delete", "expunge", "expire", "refresh", "newlink", "newlink", "rmdel", "rmdel", "touch", "orphan_owner", "orphan_owner"]))
             if k == "new":
-                ops.append([k, draw(st.integers(0, 5))])
+                ops.append([k, draw(st.integers(0, 6))])
             elif k == "newlink":
                 # a fresh child / grandchild / tag / parent attached right away (pending objects are what the orphan rules are about)
-                kind, rel = draw(st.sampled_from([[2, 0], [2, 1], [3, 2], [3, 3], [4, 4], [1, 6], [1, 5], [2, 0], [5, 7], [5, 7]]))
+                kind, rel = draw(st.sampled_from([[2, 0], [2, 1], [3, 2], [3, 3], [4, 4], [1, 6], [1, 5], [2, 0], [5, 7], [5, 7], [6, 8], [6, 8]]))
                 ops.append(["new", kind])
                 ops.append(["linknew", rel, draw(_i)])
-            elif k == "rmdel":
+            elif k in ("rmdel", "orphan_owner"):
                 ops.append([k, draw(_i), draw(_i)])
             elif k == "move":
                 ops.append([k, draw(st.integers(0, 3)), draw(_i), draw(_i), draw(st.integers(0, 1))])
             elif k == "bounce":
-                ops.append([k, draw(st.integers(0, 5)), draw(_i), draw(_i), draw(st.integers(0, 1)), draw(st.integers(0, 3))])
+                ops.append([k, draw(st.integers(0, 6)), draw(_i), draw(_i), draw(st.integers(0, 1)), draw(st.integers(0, 3))])
             elif k == "link":
-                ops.append([k, draw(st.integers(0, 7)), draw(_i), draw(_i)])
+                ops.append([k, draw(st.integers(0, 8)), draw(_i), draw(_i)])
             elif k == "unlink":
-                ops.append([k, draw(st.integers(0, 7)), draw(_i), draw(_i)])
+                ops.append([k, draw(st.integers(0, 8)), draw(_i), draw(_i)])
             else:
                 ops.append([k, draw(_i)])
         epochs.append(ops)
+    if draw(st.sampled_from([False, False, True, False, False])):
+        # many-to-one with delete-orphan whose target has delete-cascading children of its own: Parent.owner -> Owner.badges -> Badge
+        cfg["owner"] = draw(st.sampled_from([0b111111, 0b011111, 0b011011, 0b010011]))
+        cfg["badges"] = draw(st.sampled_from([0b111111, 0b001111, 0b011111, 0b001011]))
+        init["n_o"] = 1
+        init["parents"][0] = 0
+        init["badges"] = [0] + init["badges"][:1]
+        ep = epochs[draw(st.integers(0, len(epochs) - 1))]
+        ep.insert(draw(st.integers(0, len(ep))), ["orphan_owner", 0, draw(st.integers(0, 1))])
     return {"cfg": cfg, "init": init, "epochs": epochs}
 
 
